@@ -19,6 +19,7 @@ const (
 	whatTick     = "watch mode: predicates report a dirty path but the watcher's scan never returns it"
 	whatDisk     = "ctx.Rebuild() with write=true leaves an output directory that differs from the returned output files"
 	whatSymlinkKnown = "known-G-watch-misses-symlink-retarget"
+	whatSpurious     = "watch mode: the watch data installed by the build that just finished reports a change on the unedited tree"
 	whatRepeat   = "a second ctx.Rebuild() without any edit differs from the fresh build"
 )
 
@@ -214,6 +215,14 @@ func runHistory(h *history, dir string, es *execStats) []glueFailure {
 			}
 		}
 		ok, got, expect, gc, ec := compare(k)
+		if h.Cfg.Watch {
+			// the watch data installed by the build that just finished describes
+			// the tree as it is now: nothing was edited, nothing may be dirty
+			// (otherwise watch mode rebuilds forever, or is looking at stale data)
+			if spurious := api.VerifDirtyPaths(ctx); len(spurious) > 0 {
+				fails = append(fails, glueFailure{what: whatSpurious, stepNo: k, got: fmt.Sprint(relTo(root, spurious)), expect: "no dirty path: the tree was not edited since the build finished"})
+			}
+		}
 		if k > 0 && h.Cfg.Watch {
 			es.watchChecks++
 			if len(dirty) > 0 {
